@@ -111,7 +111,11 @@ def int_to_str(ip, n):
     c = concrete_of(r)
     if c is not None:
         return c[0]
+    memo = ip.hooks.setdefault(('str_of_int',), {})
+    if t.get_id() in memo:
+        return memo[t.get_id()]
     s = z3.String(fresh_name('str_of_int'))
+    memo[t.get_id()] = SV(s)
     ip.ctx.assume(s == r)
     # helper lemmas about decimal rendering (theorems of str.from_int)
     L = z3.Length(s)
@@ -127,12 +131,12 @@ def int_to_str(ip, n):
 
 
 INT_OK = z3.Union(DIGITS1, z3.Concat(z3.Re('-'), DIGITS1))
-# strings python's int() certainly rejects: ASCII-only strings containing a character that can occur in no int literal,
-# or the empty string.  (Unicode digits / whitespace / '+' / '_' forms are left nondeterministic.)
-_INT_MAYBE_CHARS = z3.Union(DIGIT, z3.Re(' '), z3.Re('\t'), z3.Re('\n'), z3.Re('\r'), z3.Re('\x0b'), z3.Re('\x0c'),
-                            z3.Re('+'), z3.Re('-'), z3.Re('_'), z3.Range('\x1c', '\x1f'),
-                            z3.Range('\x80', '\U0002FFFF'))
-INT_BAD = z3.Union(z3.Re(''), z3.Concat(z3.Full(z3.ReSort(STR)), z3.Complement(z3.Union(_INT_MAYBE_CHARS, z3.Concat(z3.AllChar(z3.ReSort(STR)), z3.Plus(z3.AllChar(z3.ReSort(STR)))), z3.Re(''))), z3.Full(z3.ReSort(STR))))
+_WS = z3.Union(*[z3.Re(c) for c in ' \t\n\r\x0b\x0c\x1c\x1d\x1e\x1f'])
+# every ASCII string python's int() accepts: optional blanks, optional sign, digit groups separated by single underscores
+INT_ASCII_LITERAL = z3.Concat(z3.Star(_WS), z3.Option(z3.Union(z3.Re('+'), z3.Re('-'))), DIGITS1,
+                              z3.Star(z3.Concat(z3.Re('_'), DIGITS1)), z3.Star(_WS))
+_ASCII = z3.Star(z3.Range('\x00', '\x7f'))
+INT_BAD = z3.Intersect(_ASCII, z3.Complement(INT_ASCII_LITERAL))     # ASCII strings int() certainly rejects
 
 
 def str_to_int_facts(ip, st, res):
@@ -143,15 +147,31 @@ def str_to_int_facts(ip, st, res):
     ip.ctx.assume(z3.Implies(L <= 3, res <= 999))
 
 
+def str_to_int_facts_guarded(ip, st, res):
+    L = z3.Length(st)
+    d = z3.InRe(st, DIGITS1)
+    ip.ctx.assume(z3.Implies(d, z3.And(res >= 0, z3.Implies(L <= 1, res <= 9), z3.Implies(L <= 2, res <= 99),
+                                       z3.Implies(L <= 3, res <= 999))))
+
+
+def int_of_digits(ip, st):
+    """int(st) for a term known to be a digit string: one shared integer variable per string term"""
+    memo = ip.hooks.setdefault(('int_of_str',), {})
+    key = st.get_id()
+    if key not in memo:
+        r = z3.Int(fresh_name('int_of_str'))
+        ip.ctx.assume(r == z3.StrToInt(st))
+        str_to_int_facts(ip, st, r)
+        memo[key] = SV(r)
+    return memo[key]
+
+
 def py_int_of_str(ip, s, node):
     """int(s) for a symbolic string s."""
     st = s.t
     pure = z3.InRe(st, DIGITS1)
     if ip.ctx.branch(pure):
-        r = z3.Int(fresh_name('int_of_str'))
-        ip.ctx.assume(r == z3.StrToInt(st))
-        str_to_int_facts(ip, st, r)
-        return SV(r)
+        return int_of_digits(ip, st)
     neg = z3.InRe(st, z3.Concat(z3.Re('-'), DIGITS1))
     if ip.ctx.branch(neg):
         rest = z3.SubString(st, 1, z3.Length(st) - 1)
@@ -469,6 +489,9 @@ def subscript(ip, obj, idx, node):
         return obj.group(ip, idx)
     if isinstance(obj, SV) and obj.is_str():
         n = z3.Length(obj.t)
+        st = structural_index(ip, obj.t, idx)
+        if st is not None:
+            return wrap(st)
         if isinstance(idx, slice):
             if idx.step not in (None, 1):
                 raise Unsupported("string slice with step")
@@ -524,6 +547,48 @@ def subscript(ip, obj, idx, node):
         except Exception as e:
             raise Raised(e)
     raise Unsupported(f"subscript on {type(obj).__name__}")
+
+
+def structural_index(ip, t, idx):
+    """s[-1], s[:-k], s[-k:] on a concatenation whose trailing parts have a fixed known length: pick the parts"""
+    t = z3.simplify(t)
+    if not (z3.is_app(t) and t.decl().kind() == z3.Z3_OP_SEQ_CONCAT):
+        return None
+    parts = []
+
+    def flat(x):
+        if z3.is_app(x) and x.decl().kind() == z3.Z3_OP_SEQ_CONCAT:
+            for i in range(x.num_args()):
+                flat(x.arg(i))
+        else:
+            parts.append(x)
+    flat(t)
+    if isinstance(idx, int) and idx == -1:
+        if ip.ctx.fixed_len(parts[-1]) == 1:
+            return parts[-1]
+        return None
+    if isinstance(idx, slice) and idx.step in (None, 1):
+        k = None
+        if idx.start is None and isinstance(idx.stop, int) and idx.stop < 0:
+            k, head = -idx.stop, True
+        elif idx.stop is None and isinstance(idx.start, int) and idx.start < 0:
+            k, head = -idx.start, False
+        if k is None:
+            return None
+        tail = []
+        acc = 0
+        rest = list(parts)
+        while rest and acc < k:
+            ln = ip.ctx.fixed_len(rest[-1])
+            if ln is None:
+                return None
+            acc += ln
+            tail.insert(0, rest.pop())
+        if acc != k or not rest:
+            return None
+        sel = rest if head else tail
+        return z3.Concat(*sel) if len(sel) > 1 else sel[0]
+    return None
 
 
 def store_subscript(ip, obj, idx, val, node):
@@ -658,18 +723,118 @@ def str_lower(ip, s, upper=False):
     if isinstance(s, str):
         return s.upper() if upper else s.lower()
     fn = _upper_fn if upper else _lower_fn
-    st = s.t
-    r = fn(st)
+    st = z3.simplify(s.t)
+    if z3.is_app(st) and st.decl().kind() == z3.Z3_OP_SEQ_CONCAT:
+        # case mapping is a homomorphism on ASCII (A-STR): distribute over the concatenation
+        parts = [str_lower(ip, wrap(st.arg(i)), upper) for i in range(st.num_args())]
+        return concat_strs(ip, parts)
     noother = NOLOWER if upper else NOUPPER
+    bound = ip.hooks.get(('strlen_bound',), {}).get(st.get_id())
+    # known language whose case-mapped image is a single string (e.g. [xX]{3}[zZ] -> 'xxxz')
+    L = ip.ctx.lang_of.get(st.get_id())
+    if L is not None:
+        w = case_image_singleton(L, upper)
+        if w is not None:
+            return w
+    if bound is not None and bound <= 1:
+        # short string of known maximal length: exact ASCII case mapping per character
+        chars = []
+        for i in range(bound):
+            c = z3.SubString(st, i, 1)
+            code = z3.StrToCode(c)
+            if upper:
+                m = z3.If(z3.And(code >= 97, code <= 122), z3.StrFromCode(code - 32), c)
+            else:
+                m = z3.If(z3.And(code >= 65, code <= 90), z3.StrFromCode(code + 32), c)
+            chars.append(m)
+        r = z3.String(fresh_name('lowered'))
+        ip.ctx.assume(r == (z3.Concat(*chars) if len(chars) > 1 else chars[0]))
+        return SV(r)
+    # already free of the other case on this path?  then the mapping is the identity (no uninterpreted term needed)
+    if L is not None:
+        from .ctx import lang_relation
+        if lang_relation(L, noother) is True:
+            return s
+    if not ip.ctx.feasible(z3.Not(z3.InRe(st, noother))):
+        return s
+    r = fn(st)
     ip.ctx.assume(z3.Length(r) == z3.Length(st))
     ip.ctx.assume(z3.Implies(z3.InRe(st, noother), r == st))
-    ip.ctx.assume(fn(r) == r)
     # the result contains no character of the other case when the input is ASCII
     ascii_ = z3.Star(z3.Range('\x00', '\x7f'))
     ip.ctx.assume(z3.Implies(z3.InRe(st, ascii_), z3.InRe(r, noother)))
     res = SV(r)
     key = ('lower_pairs',)
     ip.hooks.setdefault(key, []).append((st, r, upper))
+    return res
+
+
+_img_cache = {}
+
+
+def case_image(L, upper):
+    """RegLan of { lower(w) | w in L } for the regex constructors the shapes use; None if not computable"""
+    if not z3.is_app(L):
+        return None
+    k = L.decl().kind()
+    ch = [L.arg(i) for i in range(L.num_args())]
+    if k == z3.Z3_OP_SEQ_TO_RE:
+        a = ch[0]
+        if z3.is_string_value(a):
+            from .api import zstr
+            w = zstr(a)
+            return z3.Re(w.upper() if upper else w.lower())
+        return None
+    if k == z3.Z3_OP_RE_RANGE:
+        from .api import zstr
+        lo, hi = zstr(ch[0]), zstr(ch[1])
+        if len(lo) != 1 or len(hi) != 1:
+            return None
+        src = ('a', 'z') if upper else ('A', 'Z')
+        if hi < src[0] or lo > src[1]:
+            return L
+        if lo >= src[0] and hi <= src[1]:
+            return z3.Range(lo.upper(), hi.upper()) if upper else z3.Range(lo.lower(), hi.lower())
+        return None
+    if k in (z3.Z3_OP_RE_UNION, z3.Z3_OP_RE_CONCAT):
+        subs = [case_image(c, upper) for c in ch]
+        if any(x is None for x in subs):
+            return None
+        return z3.Union(*subs) if k == z3.Z3_OP_RE_UNION else z3.Concat(*subs)
+    if k in (z3.Z3_OP_RE_STAR, z3.Z3_OP_RE_PLUS, z3.Z3_OP_RE_OPTION):
+        sub = case_image(ch[0], upper)
+        if sub is None:
+            return None
+        return {z3.Z3_OP_RE_STAR: z3.Star, z3.Z3_OP_RE_PLUS: z3.Plus, z3.Z3_OP_RE_OPTION: z3.Option}[k](sub)
+    if k == z3.Z3_OP_RE_LOOP:
+        sub = case_image(ch[0], upper)
+        if sub is None:
+            return None
+        ps = L.decl().params()
+        return z3.Loop(sub, ps[0], ps[1] if len(ps) > 1 else 0)
+    if k == z3.Z3_OP_RE_INTERSECT:
+        return None
+    return None
+
+
+def case_image_singleton(L, upper):
+    key = (L.sexpr(), upper)
+    if key in _img_cache:
+        return _img_cache[key]
+    res = None
+    img = case_image(L, upper)
+    if img is not None:
+        x = z3.String('img_probe')
+        s = z3.Solver()
+        s.set('timeout', 2000)
+        s.add(z3.InRe(x, img))
+        if s.check() == z3.sat:
+            from .api import zstr
+            w = s.model().eval(x, model_completion=True)
+            s.add(x != w)
+            if s.check() == z3.unsat:
+                res = zstr(w)
+    _img_cache[key] = res
     return res
 
 
